@@ -56,8 +56,8 @@ pub fn big_pool() -> J {
         n("text", 1, "", "create", &[], "v"),        // 29
         n("comment", 1, "", "create", &[], "m"),     // 30
     ];
-    // slots for the nodes that split_text creates
-    for _ in 0..4 {
+    // slots for the nodes that split_text and Attr.value := .. create
+    for _ in 0..7 {
         v.push(n("text", 1, "", "spare", &[], ""));
     }
     let f = v.len() + 1;
@@ -366,6 +366,15 @@ fn random_call(w: &World, rng: &mut StdRng) -> J {
         }
     }
     let attrs: Vec<usize> = (1..=nn).filter(|i| w.nodes[*i].is_some() && w.kind[*i] == "attr").collect();
+    // Attr.value := "q" on an attribute of the main document, while a spare slot is left for the Text node it creates
+    if let Some(slot) = w.spare() {
+        if rng.gen_range(0..100) < 3 {
+            let mine: Vec<usize> = attrs.iter().cloned().filter(|i| main(*i)).collect();
+            if let Some(a) = mine.choose(rng) {
+                return json!({"op": "set_value", "a": a, "new": slot});
+            }
+        }
+    }
     let elems: Vec<usize> = (1..=nn).filter(|i| w.kind[*i] == "elem" && main(*i)).collect();
     let recv: Vec<usize> = (1..=nn)
         .filter(|i| w.nodes[*i].is_some() && main(*i) && w.kind[*i] != "doctype" && w.kind[*i] != "eref")
